@@ -41,7 +41,7 @@ PROPS = {
         relevant=["C03:"],
         theorems=['DV.Props.C03.C03_avp_nopanic', 'DV.Props.C03.C03_avps_nopanic', 'DV.Props.C03.C03_header_nopanic', 'DV.Props.C03.C03_message_nopanic', 'DV.Props.C03.C03_short_length_rejected', 'DV.Props.C03.C03_pretty_asserts', 'DV.Props.C03.C03_serialize_fits', 'DV.Props.C03.C03_serialize_message_fits', 'DV.Props.C03.C03_gen',
                   'DV.Props.C03.C03_body_bound', 'DV.Props.C03.C03_claimed_length_counterexample', 'DV.Props.C03.C03_nesting_cost_counterexample', 'DV.Props.C03.C03_no_linear_bound'],
-        gen_obligations=['Gen.HeaderLength', 'Gen.Vbit', 'Gen.available ⊆ Gen.decoderKeys', 'Gen.prettyAsserts', 'Gen.bodyChunkLength', 'Gen.readMessageCalls', 'Gen.readBodyGuard'],
+        gen_obligations=['Gen.HeaderLength', 'Gen.Vbit', 'Gen.available ⊆ Gen.decoderKeys', 'Gen.prettyAsserts', 'Gen.bodyChunkLength', 'Gen.readMessageCalls', 'Gen.readBodyGuard', 'Gen.readerBufferSliceCond'],
         trusted=CODEC_TRUST,
     ),
     "C04": dict(
@@ -61,8 +61,8 @@ PROPS = {
     "C07": dict(
         domains=[("retry", "write", 6000, 100000), ("retry", "exhaustive", 900, 900), ("retry", "conn", 1500, 20000), ("conn", "cwrite", 150, 1500), ("conn", "lw", 200, 2000), ("conn", "pipeline", 60, 600), ("resource", "buflen", 1, 1)],
         relevant=["C07:"],
-        theorems=["DV.Props.C07."+t for t in ["C07_retry","C07_retry_stops","C07_retry_conn","C07_failed_write_is_final","C07_conn_next","C07_whole","C07_exclusive","C07_once_ordered","C07_quiescent","C07_pool_exclusive","C07_pool_double_put_counterexample","C07_pool_gen","C07_gen"]],
-        gen_obligations=["Gen.responseWriteLocked","Gen.MessageBufferLength","Gen.responseWriteReturns","Gen.serverResetCalls","Gen.connBufferSources","Gen.poolUsers","Gen.poolPrimitives"],
+        theorems=["DV.Props.C07."+t for t in ["C07_retry","C07_retry_stops","C07_retry_conn","C07_failed_write_is_final","C07_conn_next","C07_whole","C07_exclusive","C07_once_ordered","C07_quiescent","C07_pool_exclusive","C07_pool_double_put_counterexample","C07_pool_gen","C07_pool_capacity","C07_pool_capacity_counterexample","C07_pool_cap_gen","C07_gen"]],
+        gen_obligations=["Gen.responseWriteLocked","Gen.MessageBufferLength","Gen.responseWriteReturns","Gen.serverResetCalls","Gen.connBufferSources","Gen.poolUsers","Gen.poolPrimitives","Gen.writerBufferReuseCond"],
         trusted=["Model.Retry hand-written from message.go writeRetry/writeStreamRetry; Model.Writers: LTS of response.Write (server.go); Model.Bufio: response.Write over bufio.Writer (Write / Flush / sticky error as in the Go standard library, buffer size 4096 of bufio.NewWriter - modelled, not verified)"],
     ),
     "C09": dict(
